@@ -5,7 +5,7 @@ scalar's limbs are canonical (< n); every element is (0:Y:0) with Y != 0 or sati
 with Z != 0.  Abstraction: element -> group point, scalar -> FromMontgomery(S).  For every state-changing
 operation and every aliasing partition of its operands: (1) RI holds afterwards, (2) the abstract result
 is the operation's documented value, (3) frame: only the receiver and call-local fresh objects are written,
-copies are fresh.  (2) re-runs the obligations of C02/C05/C06/C13/C01 under their aliasing tables inside
+copies are fresh.  (2) re-runs the obligations of C02/C05/C06/C13/C14/C07/C04/C03/C01 under their aliasing tables inside
 this check; (3) re-runs the ownership analysis of C15; (1) adds the obligations below (scalar canonicity
 from the kernel range contracts in QF_UFBV; curve-equation preservation of the addition/doubling closed
 forms as solver-checked ideal-membership identities with untrusted sympy cofactors)."""
@@ -15,7 +15,7 @@ from vf.core import Check
 from vf.dag import BVLower, ensure_vars
 from vf.uf import concat_limbs
 from vf.params import *
-from props import C01, C02, C05, C06, C13, C15
+from props import C01, C02, C03, C04, C05, C06, C07, C13, C14, C15
 
 HARNESS = ['root_intrinsics.go', 'root_scalar.go', 'root_scalar6.go', 'root_element.go', 'root_map.go', 'root_hash.go']
 SUMM = kernel_summaries('scalar', 's')
@@ -148,6 +148,10 @@ def run(tier, seed):
     C05.run(tier, seed, ck)
     C06.run(tier, seed, ck)
     C13.run(tier, seed, ck)
+    C14.run(tier, seed, ck)
+    C07.run(tier, seed, ck)
+    C04.run(tier, seed, ck)
+    C03.run(tier, seed, ck)
     lf = C01.run(tier, seed, ck)
     failures += lf or []
     # (3) frame: ownership analysis of every call configuration
